@@ -278,6 +278,145 @@ fn check_spec(spec: &RuleSpec, th: bool) -> Stats {
     st
 }
 
+// ---- histories: validate() on a rule value that is edited between calls -------------------
+// Rule's detection / true_positives / true_negatives are public fields and Rule is Clone, so a
+// user can validate, edit and validate again. Whatever happened before, validate() must answer
+// as a freshly loaded rule with the same fields does.
+
+pub const HIST_OPS: [&str; 10] = [
+    "validate", "examples:=valid", "examples:=positive-fails", "examples:=negative-matches", "examples:=malformed",
+    "examples:=empty", "optimise", "clone", "detection:=own", "detection:=never-matching",
+];
+
+fn hist_examples(idx: usize, pos: &MObj, neg: &MObj) -> (Vec<Y>, Vec<Y>) {
+    let mark = |d: &MObj, m: &str| {
+        let mut d = d.clone();
+        d.set("zz", s(m));
+        Y::Mapping(mdoc::to_yaml_map(&d))
+    };
+    match idx {
+        0 => (vec![mark(pos, "markp1")], vec![mark(neg, "markn1")]),
+        1 => (vec![mark(pos, "markp1"), mark(neg, "markp2")], vec![]),
+        2 => (vec![mark(pos, "markp1")], vec![mark(neg, "markn1"), mark(pos, "markn2")]),
+        3 => (vec![Y::String("markp3".into())], vec![mark(neg, "markn1")]),
+        _ => (vec![], vec![]),
+    }
+}
+
+fn hist_class(r: &Rule) -> String {
+    match catch(|| r.validate()) {
+        Ok(Ok(b)) => format!("Ok({})", b),
+        Ok(Err(e)) => {
+            let msg = format!("{}", e);
+            let named: Vec<&str> = ["markp1", "markp2", "markp3", "markn1", "markn2"]
+                .into_iter()
+                .filter(|m| msg.contains(m))
+                .collect();
+            format!("Err(validation={}, names {:?})", matches!(e.kind(), ErrorKind::Validation), named)
+        }
+        Err(p) => format!("PANIC({})", p.chars().take(40).collect::<String>()),
+    }
+}
+
+const NEVER: &str = "detection:\n  A: {zz9: nothere}\n  condition: A\ntrue_positives: []\ntrue_negatives: []\n";
+
+/// Applies the operations to one real rule value; returns (its final validate() class, the class of
+/// a fresh rule carrying the same fields), or None when the base rule does not load.
+pub fn run_history(yaml: &str, pos: &MObj, neg: &MObj, ops: &[u8]) -> Option<(String, String)> {
+    let own = eng::load(yaml).ok()?;
+    let never = eng::load(NEVER).ok()?;
+    let set = |r: &mut Rule, idx: usize| {
+        let (tp, tn) = hist_examples(idx, pos, neg);
+        r.true_positives = tp;
+        r.true_negatives = tn;
+    };
+    let mut real = own.clone();
+    set(&mut real, 0);
+    // model of the public state
+    let (mut ex, mut det, mut det_optimised, mut flag) = (0usize, 0usize, false, false);
+    for op in ops {
+        match *op {
+            0 => {
+                let _ = catch(|| real.validate().is_ok());
+            }
+            1..=5 => {
+                ex = (*op - 1) as usize;
+                set(&mut real, ex);
+            }
+            6 => {
+                if let Ok((r, _)) = eng::optimise_with(&real, eng::SW_DEFAULT, &[]) {
+                    real = r;
+                }
+                if !flag {
+                    flag = true;
+                    det_optimised = true;
+                }
+            }
+            7 => real = real.clone(),
+            8 | 9 => {
+                det = (*op - 8) as usize;
+                real.detection = if det == 0 { own.detection.clone() } else { never.detection.clone() };
+                det_optimised = false;
+            }
+            _ => {}
+        }
+    }
+    let mut fresh = if det == 0 { eng::load(yaml).ok()? } else { eng::load(NEVER).ok()? };
+    if det_optimised {
+        fresh = eng::optimise_with(&fresh, eng::SW_DEFAULT, &[]).ok()?.0;
+    }
+    set(&mut fresh, ex);
+    Some((hist_class(&real), hist_class(&fresh)))
+}
+
+fn check_histories(spec: &RuleSpec, depth: usize) -> Stats {
+    let mut st = Stats::default();
+    let yaml = spec.yaml();
+    let base_rule = match eng::load(&yaml) {
+        Ok(r) => r,
+        Err(_) => return st,
+    };
+    let docs = gen::docs_for(spec, 1, 200);
+    let pos = docs.iter().find(|d| eng::matches(&base_rule, *d) == Ok(true)).cloned();
+    let neg = docs.iter().find(|d| !d.0.is_empty() && eng::matches(&base_rule, *d) == Ok(false)).cloned();
+    let (pos, neg) = match (pos, neg) {
+        (Some(p), Some(n)) => (p, n),
+        _ => return st,
+    };
+    st.nontrivial += 1;
+    let nops = HIST_OPS.len() as u64;
+    let mut outcomes = std::collections::BTreeSet::new();
+    for len in 1..=depth {
+        for i in 0..nops.pow(len as u32) {
+            let mut ops = vec![0u8; len];
+            let mut m = i;
+            for o in ops.iter_mut() {
+                *o = (m % nops) as u8;
+                m /= nops;
+            }
+            let (real, fresh) = match run_history(&yaml, &pos, &neg, &ops) {
+                Some(x) => x,
+                None => continue,
+            };
+            st.states += 1;
+            st.transitions += len as u64 + 2;
+            st.traces += 1;
+            st.evaluations += 1;
+            outcomes.insert(real.clone());
+            if real != fresh {
+                let names: Vec<&str> = ops.iter().map(|o| HIST_OPS[*o as usize]).collect();
+                st.push_violation(Violation {
+                    signature: format!("history:validate-differs-from-a-fresh-rule-with-the-same-fields:after-{}", names.last().unwrap_or(&"")),
+                    witness: format!("after {:?} validate() = {} ; a fresh rule with the same fields gives {} ; rule {}", names, real, fresh, one_line(&yaml)),
+                    replay: json!({"kind":"validate-history","rule_yaml":yaml,"ops":ops,"op_names":names,"positive":crate::report::mobj_to_json(&pos),"negative":crate::report::mobj_to_json(&neg)}),
+                });
+            }
+        }
+    }
+    st.count("history_distinct_outcomes(summed over rules)", outcomes.len() as u64);
+    st
+}
+
 pub fn run(tier: Tier) -> i32 {
     let mut rep = Report::new("C13", tier);
     let th = tier.thorough();
@@ -291,9 +430,20 @@ pub fn run(tier: Tier) -> i32 {
     for p in parts {
         rep.stats.merge(p);
     }
+    // histories over one rule value
+    let hspecs: Vec<&RuleSpec> = specs.iter().step_by(if th { 3 } else { 11 }).collect();
+    let depth = if th { 4 } else { 3 };
+    let parts: Vec<Stats> = hspecs.par_iter().map(|sp| check_histories(sp, depth)).collect();
+    for p in parts {
+        rep.stats.merge(p);
+    }
+    rep.stats.count("history_rule_specs", hspecs.len() as u64);
+    rep.extra.insert("history_operations".into(), json!(HIST_OPS));
+    rep.extra.insert("history_depth".into(), json!(depth));
+    rep.stats.sample(json!({"history":["validate","examples:=positive-fails","validate"],"expected":"as a fresh rule with the failing example: Err(Validation) naming it"}));
     rep.stats.sample(json!({"true_positives":["matching","string"],"true_negatives":["non-matching"],"expected":"Err(Validation) naming the string entry only"}));
     rep.stats.sample(json!({"true_positives":[],"true_negatives":["matching"],"expected":"Err(Validation) naming the matching negative"}));
-    rep.rule = "rules: a strided slice of the shared universe (every family); x switch sets (thorough: all 16) x every pair of example lists (true_positives of length 0-2, true_negatives of length 0-1, thorough 0-2) over {a matching document, a non-matching one, {}, and the malformed entries string / int / null / sequence / bool}; every example carries a unique marker. Oracle: validate() is Ok(true) iff every positive matches and no negative does by matches(); otherwise an error of kind Validation whose text contains the marker of every failing example and of no passing one; a malformed entry is refused at load or reported by validate(), never a panic. non-trivial = the rule has both a matching and a non-matching document".into();
+    rep.rule = "rules: a strided slice of the shared universe (every family); x switch sets (thorough: all 16) x every pair of example lists (true_positives of length 0-2, true_negatives of length 0-1, thorough 0-2) over {a matching document, a non-matching one, {}, and the malformed entries string / int / null / sequence / bool}; every example carries a unique marker. Oracle: validate() is Ok(true) iff every positive matches and no negative does by matches(); otherwise an error of kind Validation whose text contains the marker of every failing example and of no passing one; a malformed entry is refused at load or reported by validate(), never a panic. Histories: every sequence of up to D operations from {validate, set the example lists to one of five pairs, optimise, clone, replace the detection by its own / by a never-matching one} on one rule value; after each sequence validate() must answer exactly as a freshly loaded rule carrying the same public fields. non-trivial = the rule has both a matching and a non-matching document".into();
     rep.assumptions = vec!["examples are identified in the error text by a unique field value (format of the message is not pinned)".into()];
     rep.finish()
 }
